@@ -51,23 +51,28 @@ pub fn close_flow(
         });
     let amount_to_return = funded_amount.saturating_sub(flow.claimed_amount);
 
-    // return the flow assets available, i.e. the ones that haven't been claimed
-    let messages: Vec<CosmosMsg> = vec![match flow.flow_asset.info {
-        AssetInfo::NativeToken { denom } => BankMsg::Send {
-            to_address: flow.flow_creator.clone().into_string(),
-            amount: coins(amount_to_return.u128(), denom),
-        }
-        .into(),
-        AssetInfo::Token { contract_addr } => WasmMsg::Execute {
-            contract_addr,
-            msg: to_json_binary(&cw20::Cw20ExecuteMsg::Transfer {
-                recipient: flow.flow_creator.clone().into_string(),
-                amount: amount_to_return,
-            })?,
-            funds: vec![],
-        }
-        .into(),
-    }];
+    // return the flow assets available, i.e. the ones that haven't been claimed. Nothing is sent when
+    // everything was claimed already, as empty transfers are rejected by the bank module and by cw20s
+    let messages: Vec<CosmosMsg> = if amount_to_return.is_zero() {
+        vec![]
+    } else {
+        vec![match flow.flow_asset.info {
+            AssetInfo::NativeToken { denom } => BankMsg::Send {
+                to_address: flow.flow_creator.clone().into_string(),
+                amount: coins(amount_to_return.u128(), denom),
+            }
+            .into(),
+            AssetInfo::Token { contract_addr } => WasmMsg::Execute {
+                contract_addr,
+                msg: to_json_binary(&cw20::Cw20ExecuteMsg::Transfer {
+                    recipient: flow.flow_creator.clone().into_string(),
+                    amount: amount_to_return,
+                })?,
+                funds: vec![],
+            }
+            .into(),
+        }]
+    };
 
     // close the flow by removing it from storage
     FLOWS.remove(deps.storage, (flow.start_epoch, flow.flow_id));
